@@ -73,6 +73,36 @@ def key_authorization(token, jwk):
     return token + "." + jwk_thumbprint(jwk)
 
 
+def chain_form(pem, form):
+    """Other byte forms of the same PEM chain (all of them certificate chains for OpenSSL's reader; a client
+    must store what it was served, byte for byte)."""
+    if not form:
+        return pem
+    if form == "no-final-nl":
+        return pem.rstrip("\n")
+    if form == "double-nl":
+        return pem + "\n"
+    if form == "leading-nl":
+        return "\n" + pem
+    if form == "crlf":
+        return pem.replace("\n", "\r\n")
+    if form == "text-before":
+        return "subject=CN = verif level 0\nissuer=CN = verif level 1\n" + pem
+    if form == "text-between":
+        return pem.replace("-----\n-----BEGIN", "-----\nissuer of the above\n-----BEGIN")
+    if form == "wrap76":
+        out = []
+        for blk in pem.split("-----END CERTIFICATE-----\n"):
+            if not blk.strip():
+                continue
+            head, _, body = blk.partition("-----BEGIN CERTIFICATE-----\n")
+            b64 = body.replace("\n", "")
+            out.append(head + "-----BEGIN CERTIFICATE-----\n" + "".join(b64[i:i + 76] + "\n" for i in range(0, len(b64), 76))
+                       + "-----END CERTIFICATE-----\n")
+        return "".join(out)
+    raise ValueError("chain_form %r" % form)
+
+
 class MockCA:
     def __init__(self, helper, rules=None, opts=None, tls=None):
         self.h = helper
@@ -97,6 +127,12 @@ class MockCA:
             "chain_sep": "",              # text between the certificates of the chain (Boulder: "\n")
             "chain_tail": "",             # text after the last certificate of the chain
             "delay_ms": 0,
+            "chain_form": None,           # byte form of the served chain (see `chain_form`); a list: one per issuance
+            "challenge_types_for": {},    # identifier value -> challenge types offered for THAT authorization
+            "wildcard_false_explicit": False,   # non-wildcard authorizations say "wildcard": false
+            "order_ident_order": None,    # "reversed": the order object lists the identifiers in reverse
+            "order_ident_ip": None,       # "exploded": IPv6 identifiers of the order object fully written out
+            "url_decor": "",              # text appended to every object URL the CA hands out (e.g. "?x=1&y=%2F")
         }
         if opts:
             self.o.update(opts)
@@ -180,7 +216,7 @@ class MockCA:
             return n
 
     def url(self, path):
-        return self.base + path
+        return self.base + path + (self.o.get("url_decor") or "")
 
     def directory(self):
         return {"newNonce": self.url("/new-nonce"), "newAccount": self.url("/new-account"),
@@ -208,6 +244,9 @@ class MockCA:
     # ------------------------------------------------------------------ request handling
     def handle(self, rq, method):
         path = rq.path
+        decor = self.o.get("url_decor") or ""
+        if decor and path.endswith(decor):
+            path = path[:-len(decor)]     # `url()` puts it back: the URL as issued is what a request must name
         kind = self.kind_of(method, path)
         raw = b""
         if method == "POST":
@@ -232,6 +271,11 @@ class MockCA:
         if rule is not None:
             ans = dict(rule["answer"])
             rec["rule"] = rule.get("label", True)
+            if ans.pop("forget_accounts", False):
+                # the CA loses every account it knows just before it looks at this request
+                with self.lock:
+                    for a in self.accounts.values():
+                        a["forgotten"] = True
             if ans.get("process"):
                 # let the CA process the request normally, then override parts of the answer
                 base_ans = self.conform(kind, method, path, jws, rec)
@@ -264,6 +308,12 @@ class MockCA:
                     continue
                 elif "from" in r and nth < r["from"]:
                     continue
+                # `every`: only every k-th occurrence counted from `from` (offset `phase`); `order_has`: only
+                # requests on an order / finalize URL whose order names an identifier containing the text
+                if "every" in r and (nth - r.get("from", 0)) % r["every"] != r.get("phase", 0):
+                    continue
+                if "order_has" in r and not self.order_has(rec, r["order_has"]):
+                    continue
                 if r.get("times") is not None:
                     r["times"] -= 1
                     if r["times"] <= 0:
@@ -272,6 +322,10 @@ class MockCA:
                     r["done"] = True
                 return r
         return None
+
+    def order_has(self, rec, text):
+        od = self.orders.get(((rec or {}).get("path") or "").split("/")[-1])
+        return od is not None and text in json.dumps(od["identifiers"])
 
     def decode_jws(self, raw, rec):
         try:
@@ -503,7 +557,7 @@ class MockCA:
                     wildcard = ident["type"] == "dns" and val.startswith("*.")
                     shown = val[2:] if (wildcard and o["wildcard_style"] == "rfc") else val
                     challs = []
-                    for ct in o["challenge_types"]:
+                    for ct in o.get("challenge_types_for", {}).get(val, o["challenge_types"]):
                         if wildcard and ct != "dns-01" and o.get("wildcard_dns_only", False):
                             continue
                         self.obj_ctr += 1
@@ -521,6 +575,7 @@ class MockCA:
                 self.orders[oid] = {"identifiers": ids, "authz": authz_urls, "status": "pending",
                                     "account": kid, "polls_ready": 0, "polls_valid": 0, "cert": None,
                                     "csr": None}
+            rec["oid"] = oid
             return {"status": 201, "body": self.order_body(oid), "location": self.url("/order/" + oid)}
         if kind == "authz":
             aid = path.split("/")[-1]
@@ -607,7 +662,8 @@ class MockCA:
         od = self.orders[oid]
         o = self.o
         if od["status"] == "pending":
-            sts = [self.authzs[u.split("/")[-1]]["status"] for u in od["authz"]]
+            dl = len(o.get("url_decor") or "")
+            sts = [self.authzs[(u[:-dl] if dl else u).split("/")[-1]]["status"] for u in od["authz"]]
             if all(s == "valid" for s in sts):
                 if od["polls_ready"] >= o["order_polls_before_ready"]:
                     od["status"] = "ready"
@@ -617,8 +673,10 @@ class MockCA:
                 od["status"] = "invalid"
         elif od["status"] == "processing":
             if od["polls_valid"] >= o["order_polls_before_valid"]:
-                r = self.h.call({"op": "issue", "csr_b64": od["csr"], "chain_len": o["chain_len"],
-                                 "valid_secs": o["valid_secs"], "pad": o.get("chain_pad", 0)})
+                nth = len(self.certs)
+                pick = lambda v: (v[min(nth, len(v) - 1)] if isinstance(v, list) else v)   # noqa: E731
+                r = self.h.call({"op": "issue", "csr_b64": od["csr"], "chain_len": pick(o["chain_len"]),
+                                 "valid_secs": o["valid_secs"], "pad": pick(o.get("chain_pad", 0))})
                 if "pem" in r:
                     self.obj_ctr += 1
                     cid = str(self.obj_ctr)
@@ -629,6 +687,7 @@ class MockCA:
                         blocks = [b + "-----END CERTIFICATE-----\n" for b in pem.split("-----END CERTIFICATE-----\n") if b.strip()]
                         pem = "".join(reversed(blocks))
                     self.certs[cid] = pem.replace("-----\n-----BEGIN", "-----\n" + o["chain_sep"] + "-----BEGIN") + o.get("chain_tail", "")
+                    self.certs[cid] = chain_form(self.certs[cid], pick(o.get("chain_form")))
                     od["cert"] = self.url("/cert/" + cid)
                     od["status"] = "valid"
                 else:
@@ -644,6 +703,11 @@ class MockCA:
             # a CA may spell the names of ITS order object differently from the request (DNS is
             # case-insensitive): the client's CSR must still carry the CONFIGURED names
             idents = [dict(i, value=i["value"].upper()) if i.get("type") == "dns" else i for i in idents]
+        if self.o.get("order_ident_ip") == "exploded":
+            import ipaddress
+            idents = [dict(i, value=ipaddress.ip_address(i["value"]).exploded) if i.get("type") == "ip" else i for i in idents]
+        if self.o.get("order_ident_order") == "reversed":
+            idents = list(reversed(idents))
         b = {"status": od["status"], "identifiers": idents, "authorizations": od["authz"],
              "finalize": self.url("/finalize/" + oid), "expires": "2099-01-01T00:00:00Z"}
         if od.get("cert"):
@@ -668,6 +732,8 @@ class MockCA:
             b["challenges"].reverse()
         if a["wildcard"]:
             b["wildcard"] = True
+        elif self.o.get("wildcard_false_explicit"):
+            b["wildcard"] = False
         return b
 
     # ------------------------------------------------------------------ answer
@@ -707,6 +773,8 @@ class MockCA:
                      "body_class": ans.get("body_class"), "len": len(data),
                      "body_text": data.decode(errors="replace") if len(data) < 100000 else None,
                      "ctype": ctype})
+        if ans.get("cut_after") is not None:
+            arec["cut_after"] = ans["cut_after"]
         if isinstance(body, dict) and "type" in body and str(body.get("type", "")).startswith(ERR):
             arec["problem"] = body["type"][len(ERR):]
         self.ev(**arec)
@@ -720,7 +788,16 @@ class MockCA:
                 rq.send_header("Location", ans["location"])
             rq.send_header("Cache-Control", "no-store")
             rq.end_headers()
-            if method != "HEAD":
+            if method != "HEAD" and ans.get("cut_after") is not None:
+                # the body is cut short: the announced Content-Length is never reached, the connection ends
+                rq.wfile.write(data[:ans["cut_after"]])
+                rq.wfile.flush()
+                try:
+                    rq.connection.shutdown(socket.SHUT_RDWR)
+                except Exception:
+                    pass
+                rq.close_connection = True
+            elif method != "HEAD":
                 rq.wfile.write(data)
         except Exception:
             pass
